@@ -123,6 +123,8 @@ def gen_case(r, tier, long_blocks=0):
             ops.append(block_op(r))
     if r.chance(1, 2):
         ops.append("free")
+    if r.chance(1, 10):
+        ops.append("freenull")
     return ops
 
 
